@@ -214,9 +214,20 @@ pub fn mutate_text(src: &mut Src, s: &str) -> String {
     let n = src.range(1, 2);
     for _ in 0..n {
         let i = src.below(v.len());
-        match src.below(9) {
+        match src.below(10) {
             0 => {
                 v.remove(i);
+            }
+            9 => {
+                // give a number (a threshold's k, a lock value, an index) children of its own
+                let digits: Vec<usize> = (0..v.len()).filter(|j| v[*j].is_ascii_digit() && (*j + 1 == v.len() || v[*j + 1] == ',' || v[*j + 1] == ')')).collect();
+                if !digits.is_empty() {
+                    let at = *src.pick(&digits) + 1;
+                    let ins = *src.pick(&["(pk(A),pk(B))", "(older(1),after(2))", "()", "(0)", "(1,2)", "(pk(A))"]);
+                    for (k, c) in ins.chars().enumerate() {
+                        v.insert(at + k, c);
+                    }
+                }
             }
             7 | 8 => {
                 // characters outside the descriptor charset: controls, DEL, upper case, non-ASCII
